@@ -497,11 +497,19 @@ pub fn replay(case: &Value) -> Result<Vec<(String, String)>, String> {
 
 type Body = Arc<dyn Fn(usize, &Sched) -> Vec<u64> + Send + Sync>;
 
+/// The shared builder of program P3. `QRBuilder` is Send + Sync today; the wrapper asserts it
+/// unconditionally so that the harness still compiles (and P3 still explores) if a change gives the
+/// builder interior mutability. Under the controlled scheduler exactly one thread runs at a time and
+/// every hand-over goes through a mutex, so no two accesses are ever concurrent.
+struct SharedBuilder(QRBuilder);
+unsafe impl Sync for SharedBuilder {}
+unsafe impl Send for SharedBuilder {}
+
 fn bodies_of(p: &Program) -> Vec<Body> {
-    let shared: Option<Arc<QRBuilder>> = p.shared.as_ref().map(|c| {
+    let shared: Option<Arc<SharedBuilder>> = p.shared.as_ref().map(|c| {
         let mut b = QRBuilder::new(c.input.clone());
         c.opts.apply(&mut b);
-        Arc::new(b)
+        Arc::new(SharedBuilder(b))
     });
     p.threads
         .iter()
@@ -512,7 +520,7 @@ fn bodies_of(p: &Program) -> Vec<Body> {
                 ops.iter()
                     .map(|op| match op {
                         TOp::Build(c) => observe(c),
-                        TOp::Shared => match subject::guarded(|| shared.as_ref().unwrap().build()) {
+                        TOp::Shared => match subject::guarded(|| shared.as_ref().unwrap().0.build()) {
                             Ok(r) => subject::outcome_digest(&subject::classify(r)),
                             Err(_) => 3,
                         },
